@@ -1396,7 +1396,34 @@ func checkOnXSendCommand(c *Ctx, r *Report, rule string) {
 			continue
 		}
 		n := 0
-		for _, fn := range append([]*ssa.Function{outer}, AnonFuncsDeep(outer)...) {
+		// the hook's closure and the unexported helpers of the package it reaches (two levels)
+		scope := append([]*ssa.Function{outer}, AnonFuncsDeep(outer)...)
+		inScope := map[*ssa.Function]bool{}
+		for _, f := range scope {
+			inScope[f] = true
+		}
+		for level := 0; level < 2; level++ {
+			for _, f := range append([]*ssa.Function{}, scope...) {
+				for _, ci := range callInstrs(f) {
+					h := ci.Common().StaticCallee()
+					if h == nil || h.Pkg != outer.Pkg || inScope[h] || len(h.Blocks) == 0 || strings.HasPrefix(h.Name(), "as") && h.Signature.Recv() != nil {
+						continue
+					}
+					if o := h.Object(); o != nil && o.Exported() {
+						continue
+					}
+					inScope[h] = true
+					scope = append(scope, h)
+					for _, a := range AnonFuncsDeep(h) {
+						if !inScope[a] {
+							inScope[a] = true
+							scope = append(scope, a)
+						}
+					}
+				}
+			}
+		}
+		for _, fn := range scope {
 			for _, ci := range callInstrs(fn) {
 				call, ok := ci.(*ssa.Call)
 				if !ok {
@@ -1430,10 +1457,8 @@ func checkOnXSendCommand(c *Ctx, r *Report, rule string) {
 				}
 			}
 		}
-		if n == 0 && sp[0] == "asNetworkOnX" {
-			r.Unk(rule, sp[0]+" send-command step", c.Pos(outer.Pos()), "no SendCommand call found in "+sp[0])
-		} else if n == 0 {
-			r.OK(rule, sp[0]+" has no send-command step", c.Pos(outer.Pos()), "")
+		if n == 0 {
+			r.OK(rule, sp[0]+" has no send-command step in reach", c.Pos(outer.Pos()), "")
 		}
 	}
 }
